@@ -95,6 +95,7 @@ package scheduler
 //@   props C04 C05
 //@   safety
 //@   requires nodes_wf(g)
+//@   modifies *
 //@   ensures [C04 is_running] r <==> any_running(g)
 //@   loop 0 invariant forall i int :: 0 <= i && i <= idx ==> status_at(g, i) != NodeStatusRunning
 
@@ -120,6 +121,7 @@ package scheduler
 //@   props C04
 //@   safety
 //@   requires nodes_wf(g)
+//@   modifies *
 //@   ensures [C04 is_succeed] r <==> all_done_ok(g)
 //@   loop 0 invariant forall i int :: 0 <= i && i <= idx ==>
 //@        (status_at(g, i) == NodeStatusSuccess || status_at(g, i) == NodeStatusSkipped)
@@ -128,6 +130,7 @@ package scheduler
 //@   props C02 C04
 //@   safety
 //@   requires nodes_wf(g)
+//@   modifies *
 //@   ensures [C02 is_finished] r <==> all_finished(g)
 //@   loop 0 invariant forall i int :: 0 <= i && i <= idx ==>
 //@        (status_at(g, i) != NodeStatusRunning && status_at(g, i) != NodeStatusNone)
@@ -136,6 +139,7 @@ package scheduler
 //@   props C15
 //@   safety
 //@   requires nodes_wf(g)
+//@   modifies *
 //@   ensures [C15 counts_running] r == count_running(g, len(g.nodes))
 //@   loop 0 invariant count == count_running(g, idx + 1)
 
@@ -354,3 +358,122 @@ package scheduler
 //@        idx == -1 ==> ((len(handlers) == 2 ==> handlers[0] == handler_for(outcome(sc, g))) &&
 //@                       (len(handlers) == 1 ==> (outcome(sc, g) == StatusNone || outcome(sc, g) == StatusRunning)))
 //@   loop 2 invariant [C04 handlers_run_in_order] hruns <= old(hruns) + idx + 1
+
+// ---------------------------------------------------------------------------------------------
+// Graph construction (C14, C01): names resolve exactly, edges are recorded in both directions, and a graph
+// is admitted iff every dependency resolves and hasCycle says no.
+
+//@ pred dict_wf(g *ExecutionGraph) = forall k int :: has(g.dict, k) ==> g.dict[k] != nil
+//@ pred name_absent(g *ExecutionGraph, name string) = forall k int :: has(g.dict, k) ==> g.dict[k].data.Step.Name != name
+
+//@ fn (*ExecutionGraph).findStep(g, name) (n, err)
+//@   props C14 C01
+//@   safety
+//@   requires dict_wf(g)
+//@   ensures [C14 found_is_a_node_with_that_name] err == nil ==>
+//@        (n != nil && n.data.Step.Name == name && (exists k int :: has(g.dict, k) && g.dict[k] == n))
+//@   ensures [C14 not_found_iff_no_such_step] err != nil <==> name_absent(g, name)
+//@   ensures [C14 not_found_returns_nil] err != nil ==> n == nil
+//@   loop 0 invariant forall k int :: visited(0, k) ==> (has(g.dict, k) && g.dict[k].data.Step.Name != name)
+
+//@ fn (*ExecutionGraph).addEdge(g, from, to)
+//@   props C14 C01
+//@   safety
+//@   requires g.from != nil && g.to != nil && g.from != g.to
+//@   modifies contents(g.from), contents(g.to), heap(elems(int)), heap(alloc)
+//@   ensures [C14 edge_recorded_backward] len(g.to[to.id]) == old(len(g.to[to.id])) + 1 && g.to[to.id][old(len(g.to[to.id]))] == from.id
+//@   ensures [C14 edge_recorded_forward] len(g.from[from.id]) == old(len(g.from[from.id])) + 1 && g.from[from.id][old(len(g.from[from.id]))] == to.id
+//@   ensures [C14 earlier_edges_kept] forall j int :: 0 <= j && j < old(len(g.to[to.id])) ==> g.to[to.id][j] == old(g.to[to.id][j])
+//@   ensures [C14 earlier_edges_kept_fwd] forall j int :: 0 <= j && j < old(len(g.from[from.id])) ==> g.from[from.id][j] == old(g.from[from.id][j])
+//@   ensures [C14 other_nodes_untouched] forall k int :: k != to.id ==> (has(g.to, k) == old(has(g.to, k)) && g.to[k] == old(g.to[k]))
+//@   ensures [C14 other_nodes_untouched_fwd] forall k int :: k != from.id ==> (has(g.from, k) == old(has(g.from, k)) && g.from[k] == old(g.from[k]))
+//@   ensures [C14 other_lists_unchanged] forall k int, j int :: k != to.id && 0 <= j && j < len(g.to[k]) ==> g.to[k][j] == old(g.to[k][j])
+//@   ensures [C14 other_lists_unchanged_fwd] forall k int, j int :: k != from.id && 0 <= j && j < len(g.from[k]) ==> g.from[k][j] == old(g.from[k][j])
+
+// hasCycle: the functional contract (answer == "the dependency relation has a cycle") is decided by a bounded
+// stand-in that executes the real function (DESIGN §2.12); callers see its answer through a ghost observation.
+//@ ghost obs.cycle bool
+//@ ghost obs.cycle_calls int
+//@ fn (*ExecutionGraph).hasCycle(g) (r)
+//@   props C14
+//@   trusted
+//@   modifies ghost obs.cycle, ghost obs.cycle_calls
+//@   ensures obs.cycle == r && obs.cycle_calls == old(obs.cycle_calls) + 1
+
+//@ pred ids_wf(g *ExecutionGraph) = forall k int :: has(g.dict, k) ==> g.dict[k].id == k
+//@ pred edge_present(g *ExecutionGraph, i int, j int) = exists m int :: 0 <= m && m < len(g.to[g.nodes[i].id]) &&
+//@      has(g.dict, g.to[g.nodes[i].id][m]) && g.dict[g.to[g.nodes[i].id][m]].data.Step.Name == g.nodes[i].data.Step.Depends[j]
+//@ pred deps_resolve(g *ExecutionGraph) = forall i int, j int :: 0 <= i && i < len(g.nodes) && 0 <= j && j < len(g.nodes[i].data.Step.Depends) ==>
+//@      !name_absent(g, g.nodes[i].data.Step.Depends[j])
+
+//@ fn (*ExecutionGraph).setup(g) (err)
+//@   props C14 C01
+//@   safety
+//@   requires dict_wf(g) && ids_wf(g) && nodes_wf(g) && g.from != nil && g.to != nil && g.from != g.to
+//@   requires forall k int, j int :: 0 <= j && j < len(g.to[k]) ==> has(g.dict, g.to[k][j])
+//@   modifies contents(g.from), contents(g.to), heap(elems(int)), heap(alloc), ghost obs.cycle, ghost obs.cycle_calls
+//@   expect calls (*ExecutionGraph).hasCycle >= 1
+//@   assert before (*ExecutionGraph).hasCycle [C14 cycle_test_sees_every_edge]
+//@        forall i int, j int :: 0 <= i && i < len(g.nodes) && 0 <= j && j < len(g.nodes[i].data.Step.Depends) ==> edge_present(g, i, j)
+//@   ensures [C14 dangling_dependency_is_refused] !old(deps_resolve(g)) ==> err != nil
+//@   ensures [C14 accepted_only_if_acyclic] err == nil ==> (obs.cycle_calls == old(obs.cycle_calls) + 1 && !obs.cycle)
+//@   ensures [C14 resolvable_acyclic_is_accepted] old(deps_resolve(g)) ==> (obs.cycle_calls == old(obs.cycle_calls) + 1 && (err != nil <==> obs.cycle))
+//@   ensures [C01 every_dependency_is_an_edge] err == nil ==>
+//@        (forall i int, j int :: 0 <= i && i < len(g.nodes) && 0 <= j && j < len(g.nodes[i].data.Step.Depends) ==> edge_present(g, i, j))
+//@   ensures [C01 edges_point_to_nodes] forall k int, j int :: 0 <= j && j < len(g.to[k]) ==> has(g.dict, g.to[k][j])
+//@   loop 0 invariant [resolved_so_far] forall i int, j int :: 0 <= i && i <= idx && 0 <= j && j < len(g.nodes[i].data.Step.Depends) ==>
+//@        (edge_present(g, i, j) && !old(name_absent(g, g.nodes[i].data.Step.Depends[j])))
+//@   loop 0 invariant [edges_to_nodes] forall k int, j int :: 0 <= j && j < len(g.to[k]) ==> has(g.dict, g.to[k][j])
+//@   loop 0 invariant obs.cycle_calls == old(obs.cycle_calls)
+//@   loop 1 invariant [resolved_so_far_outer] forall i int, j int :: 0 <= i && i <= idx0 && 0 <= j && j < len(g.nodes[i].data.Step.Depends) ==>
+//@        (edge_present(g, i, j) && !old(name_absent(g, g.nodes[i].data.Step.Depends[j])))
+//@   loop 1 invariant [resolved_so_far_inner] forall j int :: 0 <= j && j <= idx ==>
+//@        (edge_present(g, idx0 + 1, j) && !old(name_absent(g, g.nodes[idx0 + 1].data.Step.Depends[j])))
+//@   loop 1 invariant [edges_to_nodes_inner] forall k int, j int :: 0 <= j && j < len(g.to[k]) ==> has(g.dict, g.to[k][j])
+//@   loop 1 invariant obs.cycle_calls == old(obs.cycle_calls)
+
+// Node identities come from a process-wide counter: every id handed out is positive and below the counter.
+//@ fn getNextNodeID() (v)
+//@   props C14
+//@   modifies nextNodeID
+//@   ensures v == old(nextNodeID) && nextNodeID == old(nextNodeID) + 1
+
+//@ fn (*Node).init(n)
+//@   props C14 C01
+//@   modifies n.id, n.data.Step.Variables, n.data.Step.Preconditions, nextNodeID, heap(alloc)
+//@   ensures old(n.id) != 0 ==> (n.id == old(n.id) && nextNodeID == old(nextNodeID))
+//@   ensures old(n.id) == 0 ==> (n.id == old(nextNodeID) && nextNodeID == old(nextNodeID) + 1)
+
+//@ pred steps_absent(steps []dag.Step, name string) = forall k int :: 0 <= k && k < len(steps) ==> steps[k].Name != name
+
+//@ fn NewExecutionGraph(lg, steps) (g, err)
+//@   props C14 C01
+//@   requires nextNodeID > 0
+//@   modifies *
+//@   ensures [C14 refused_graph_is_nil] err != nil ==> g == nil
+//@   ensures [C14 dangling_dependency_is_refused]
+//@        (exists i int, j int :: 0 <= i && i < len(steps) && 0 <= j && j < len(steps[i].Depends) && old(steps_absent(steps, steps[i].Depends[j]))) ==> err != nil
+//@   ensures [C14 accepted_only_if_acyclic] err == nil ==> (obs.cycle_calls == old(obs.cycle_calls) + 1 && !obs.cycle)
+//@   ensures [C14 resolvable_acyclic_is_accepted]
+//@        (forall i int, j int :: 0 <= i && i < len(steps) && 0 <= j && j < len(steps[i].Depends) ==> !old(steps_absent(steps, steps[i].Depends[j])))
+//@        ==> (obs.cycle_calls == old(obs.cycle_calls) + 1 && (err != nil <==> obs.cycle))
+//@   ensures [C01 graph_is_well_formed] err == nil ==> (g != nil && nodes_wf(g) && graph_wf(g) && dict_wf(g) && ids_wf(g) && len(g.nodes) == len(steps))
+//@   ensures [C01 nodes_are_the_steps_not_started] err == nil ==> (forall i int :: 0 <= i && i < len(steps) ==>
+//@        (g.nodes[i].data.Step.Name == old(steps[i].Name) && g.nodes[i].data.Step.Depends == old(steps[i].Depends) &&
+//@         g.nodes[i].data.State.Status == NodeStatusNone && has(g.dict, g.nodes[i].id) && g.dict[g.nodes[i].id] == g.nodes[i]))
+//@   loop 0 invariant graph != nil && graph.dict != nil && graph.from != nil && graph.to != nil && graph.from != graph.to
+//@   loop 0 invariant nextNodeID > 0 && obs.cycle_calls == old(obs.cycle_calls)
+//@   loop 0 invariant len(graph.nodes) == idx + 1 && nodes_wf(graph) && dict_wf(graph) && ids_wf(graph)
+//@   loop 0 invariant forall k int :: has(graph.dict, k) ==> (0 < k && k < nextNodeID)
+//@   loop 0 invariant forall k int :: has(graph.dict, k) ==> (exists i int :: 0 <= i && i <= idx && graph.nodes[i] == graph.dict[k])
+//@   loop 0 invariant forall k int :: !has(graph.to, k) && !has(graph.from, k)
+//@   loop 0 invariant forall i int :: 0 <= i && i <= idx ==>
+//@        (graph.nodes[i].data.Step.Name == old(steps[i].Name) && graph.nodes[i].data.Step.Depends == old(steps[i].Depends) &&
+//@         graph.nodes[i].data.State.Status == NodeStatusNone && has(graph.dict, graph.nodes[i].id) && graph.dict[graph.nodes[i].id] == graph.nodes[i])
+
+// hasCycle, memory safety only (unbounded): no nil-map write, no index out of range on the work list.
+//@ fn (*ExecutionGraph).hasCycle(g) (r) variant safety
+//@   props C14
+//@   safety
+//@   requires nodes_wf(g)
+//@   modifies *
